@@ -103,6 +103,11 @@ claim("C15", T + "forward dataflow of the user's limit field into a rejecting co
       "That deliver-time recomputation reproduces the checked amounts is arithmetic and NOT decided. Decides that in each of the six live trading handlers MinimumValueToBuy / MaximumValueToSell reaches, before the deliver block, a comparison with the calculated amount whose failing edge rejects with the right polarity; that tx.return / tx.sell_amount print amounts with the same call-result origins as an amount credited to or debited from the sender; and that sell-all handlers debit an amount derived from the sender's whole balance of the sold coin.",
       TRUST, "DESIGN.md §4 C15")
 
+
+claim("C23", T + "who-may-decode inventory (only rlp.DecodeBytes with its error returned), struct-tag walk over every type reachable from the decoded roots with a gate rule for `tail` fields, gate facts and argument provenance in the two signature-recovery functions, structural check of ValidateSignatureValues",
+      "The RLP decoder's canonical-size checks, curve arithmetic and byte round trips are NOT decided. Decides that transaction, data, signature and check bytes are decoded only by rlp.DecodeBytes (trailing input rejected) with the error returned; that no decoded type carries a lenient rlp tag and every `tail` field is rejected when non-empty by its live handler; that both recovery functions reach Ecrecover only behind the one-byte V bound and ValidateSignatureValues(byte(V−27), R, S, true) on the R, S they serialise; that ValidateSignatureValues rejects s > N/2 under that flag and v ∉ {0,1}; and that Transaction.Sender / Check.Sender recover from their own hash and signature.",
+      TRUST, "DESIGN.md §4 C23")
+
 PENDING = "check not built yet in this round; see DESIGN.md §4 for the planned static rule"
 for p in ["C%02d" % i for i in range(1, 30)]:
     if p not in CLAIMS and p != "C12":
